@@ -17,9 +17,10 @@ use serde_json::json;
 
 pub fn run_case(ctx: &Ctx, case: u64, ev: &mut Ev) {
     let mut rng = Rng::derive(ctx.seed, "C04", case);
+    rng.big = ctx.tier == crate::Tier::Thorough && rng.chance(0.2);
     // swarm configuration
     let cfg = HistCfg {
-        max_ops: *rng.pick(&[3usize, 6, 10, 16, 25]),
+        max_ops: if rng.big { 40 } else { *rng.pick(&[3usize, 6, 10, 16, 25]) },
         prune_bias: *rng.pick(&[0.2, 0.5, 0.8]),
         partial_bias: *rng.pick(&[0.0, 0.3, 0.7]),
         allow_inexact: rng.chance(0.15),
